@@ -66,8 +66,9 @@ CHECKS = {
             "util::deserialize::<_, MessageHeader> reads 28 bytes at the ICD offsets (proved by Kani harness c10_layout_message_header)",
             "decode_digital_radar_data leaves the reader where drd_spec says (proved in unit drd_decode over the absolute Cursor model); framing uses it through the uninterpreted spec_drd(bytes).1",
         ],
-        not_decided=["that a type-31 message with contiguous blocks in pointer order consumes exactly its own length "
-                     "(assumed contract of decode_digital_radar_data; bounded evidence under C02)"],
+        not_decided=["the identification of framing's uninterpreted spec_drd (value, consumed length) with drd_decode's drd_spec is a "
+                     "hand-over of the contract text between two units with different reader models (remaining bytes vs absolute "
+                     "position), not one machine-checked chain"],
         explanation="decode_messages / decode_message_contents / decode_message_header extracted verbatim; postcondition "
                     "result == spec_stream(bytes) for all byte streams and all 256 type codes, loop invariant over a ghost "
                     "cursor, termination by remaining length.",
